@@ -54,7 +54,7 @@ def configs(tier):
             {"e2e": True}]
 
 
-def run_e2e(seed, tape, opts):
+def run_e2e(seed, tape, opts, app=None):
     """The same convergence question end to end: two real wormholes with
     Dilation over the real mailbox server (control messages travel as
     dilate-N phases through Boss/Mailbox), the peer link lost 5..9 times in
@@ -85,6 +85,8 @@ def run_e2e(seed, tape, opts):
         return (ma._connection, mb._connection)
     sim.run(8000, until=lambda: conns() is not None, max_time=300)
     nloss = 5 + tape.choose(5, "nloss")
+    if app is not None and conns() is not None:
+        app.start(w, a, b)
     if conns() is None:
         viol.append({"key": "C11.no_convergence", "clause": "the two sides "
                      "agree on roles and converge on a shared connection",
@@ -142,6 +144,12 @@ def run_e2e(seed, tape, opts):
                          (i + 1, tell, _st(mgr(a)), _st(mgr(b)))})
             break
         done_losses += 1
+        if app is not None:
+            app.after_loss(i)
+    if app is not None and not viol:
+        v = app.finish()
+        if v:
+            viol.append(v)
     for c in (a, b):
         c.do_close()
     sim.run(4000, until=lambda: a.is_closed and b.is_closed, max_time=200)
